@@ -57,3 +57,8 @@ def run(ctx):
     ctx.coverage["distinct_nontrivial"] = st["inputs"] - st["diverging"]
     ctx.coverage["rule"] = "the same random charts and histories through both compiled engines (full monitor alphabet, logs, step() results, configurations) and through Model.Large / Model.Fast; non-trivial = run reaches quiescence"
     ctx.assumptions += ["IRP corpus with lua/promela datamodels: thorough tier of the datamodel suites", "WITH_CACHE_FILES switched off (USCXML_NOCACHE_FILES=1); cache behaviour belongs to C20"]
+
+
+def replay(ctx, path):
+    import uvlib
+    return uvlib.generic_replay(ctx, path, [("large", "trace", "trace", None), ("fast", "trace", "trace", None)])
